@@ -20,5 +20,5 @@ def run(chk):
                                       drain=False, timeout_advance=False):
             tr2 = et.replay_then_resume(prog, list(sched))
             items.append((label, prog, (), tr2, list(sched) + [["snapshot+resume"]]))
-    eg.standard_run(chk, "C11", None, {"tick"}, keep=lambda r: "rebuilt" in r, items=items)
+    eg.standard_run(chk, "C11", None, {"tick", "inspect"}, keep=lambda r: r["e"] == "inspect" or "rebuilt" in r, items=items)
     chk.add(ticks_compared=0)
